@@ -525,7 +525,12 @@ def _gen_c10(r, seed, child=False):
     if o["pwd"] and r.random() < 0.4:
         # a reserved word in a secret position stays as it is - also after the run has met a Juniper secret whose clear
         # text is that very word, the word as a listed sensitive word's container, or the word in another case
-        rword = r.choice(GC.RESERVED_BASES + ["accept", "access", "aaa"] + user_res)
+        cap = None
+        if r.random() < 0.3:
+            # a reserved word of the user's own that contains capitals (and none of the listed words)
+            cap = r.choice(["CorpWideRO7", "NOC-Readonly", "Backbone2RW"])
+            o["reserved"] = (o["reserved"] or []) + [cap]
+        rword = cap or r.choice(GC.RESERVED_BASES + ["accept", "access", "aaa"] + user_res)
         at = r.randint(0, len(lines))
         lines.insert(at, {"segs": [["lit", r.choice(["snmp-server community ", "radius-server key ", " username admin password "])],
                                    ["rsec", rword], ["lit", r.choice(["", "", " ro 1"])]], "eol": "\n"})
@@ -668,7 +673,7 @@ def _check_c10(plan):
                                   "detail": "%s: token %r is exactly a reserved word but came out as %r" % (label, seg[1], tok)})
                 elif seg[0] == "rsec":
                     probes["reserved_secret_slots"] += 1
-                    if tok != seg[1] and seg[1] in reserved:
+                    if tok != seg[1] and (seg[1] in reserved or seg[1] in (o["reserved"] or [])):
                         V.append({"prop": "C10", "tag": "reserved-secret-changed",
                                   "detail": "%s: the secret value %r is a reserved word but came out as %r (output line %d %r)" % (
                                       label, seg[1], tok, ln_no, olines[ln_no][:100])})
